@@ -61,7 +61,11 @@ Record tv := { tv_val : bool; tv_through_scalar : bool; tv_fault : option str }.
 Record variants := {
   overflow_escapes : bool;     (* behaviour before 86538e9: OverflowError of re.compile not mapped *)
   lookup_escapes : bool;       (* behaviour of the code (D14b): TypeError of the nested lookup escapes *)
-  bare_keyword_atom : bool     (* behaviour of the code: "(and)" is the ID pattern "and" *)
+  bare_keyword_atom : bool;    (* behaviour of the code: "(and)" is the ID pattern "and" *)
+  eval_depth_limit : nat       (* behaviour of the code (D26): evaluation is recursive, one Python frame per nesting
+                                  level of the expression closures (a chain "a or b or c ..." is left-nested, one level
+                                  per operand); beyond this many levels RecursionError is raised.  0 = no limit
+                                  (the documentation knows none) *)
 }.
 
 (* ---------- small string functions ---------- *)
@@ -348,6 +352,21 @@ Section Eval.
     | Or a b => match eval a i with VB false => eval b i | x => x end
     end.
 
+  (* evaluation with at most [lim] nested calls, as the recursive closures of the code do it *)
+  Fixpoint eval_lim (lim : nat) (e : expr) (i : nat) : val :=
+    match lim with
+    | O => VExc (lit "RecursionError")
+    | S l =>
+        match e with
+        | Atom a => atom_val a i
+        | Not a => match eval_lim l a i with VB b => VB (negb b) | x => x end
+        | And a b => match eval_lim l a i with VB true => eval_lim l b i | x => x end
+        | Or a b => match eval_lim l a i with VB false => eval_lim l b i | x => x end
+        end
+    end.
+  Definition eval_v (e : expr) (i : nat) : val :=
+    match eval_depth_limit V with O => eval e i | lim => eval_lim lim e i end.
+
   (* the documented meaning: plain Boolean connectives over the atoms' truth values *)
   Fixpoint denote (e : expr) (i : nat) : bool :=
     match e with
@@ -367,6 +386,22 @@ Section Eval.
     end.
 End Eval.
 
+(* nesting depth of the evaluation closures *)
+Fixpoint depth (e : expr) : nat :=
+  match e with
+  | Atom _ => 1
+  | Not a => S (depth a)
+  | And a b | Or a b => S (Nat.max (depth a) (depth b))
+  end.
+
+(* nesting along the operands that are evaluated first (a chain a or b or c ... is left-nested) *)
+Fixpoint spine (e : expr) : nat :=
+  match e with
+  | Atom _ => 1
+  | Not a => S (spine a)
+  | And a _ | Or a _ => S (spine a)
+  end.
+
 Fixpoint atoms (e : expr) : list atom :=
   match e with
   | Atom a => [a]
@@ -377,7 +412,7 @@ Fixpoint atoms (e : expr) : list atom :=
 (* ---------- match(): outcome on every environment 0..n-1 ---------- *)
 Definition outcome (V : variants) (truth : atom -> nat -> tv) (n : nat) (r : res expr) : list val :=
   match r with
-  | Ok e => map (eval V truth e) (seq 0 n)
+  | Ok e => map (eval_v V truth e) (seq 0 n)
   | Er ParseErr => repeat (VExc (lit "ValueError")) n
   | Er (Raise t) => repeat (VExc t) n
   | Er OutOfFuel => repeat (VExc (lit "model-out-of-fuel")) n
